@@ -65,20 +65,225 @@ pub fn init_json(interp: &mut Interpreter) {
         .set_property(json_key, JsValue::Object(json));
 }
 
+/// State of one JSON.stringify call
+struct StringifyContext {
+    /// Replacer function (second argument), called for every property
+    replacer: Option<JsValue>,
+    /// Property allow-list (second argument given as an array)
+    allow: Option<Vec<PropertyKey>>,
+    /// Objects on the current path, for circular reference detection
+    visited: FxHashSet<usize>,
+    stack_base: usize,
+    /// Keeps values produced by toJSON, getters and the replacer alive while they are serialized
+    guard: Guard<JsObject>,
+}
+
+/// Read `obj[key]` the way script code would: prototype chain and getters included
+fn read_json_property(
+    interp: &mut Interpreter,
+    ctx: &StringifyContext,
+    obj: &crate::gc::Gc<JsObject>,
+    key: &PropertyKey,
+) -> Result<JsValue, JsError> {
+    let descriptor = obj.borrow().get_property_descriptor(key);
+    let value = match descriptor {
+        Some((prop, _)) if prop.is_accessor() => match prop.getter() {
+            Some(getter) => {
+                let result = interp.call_function(
+                    JsValue::Object(getter.clone()),
+                    JsValue::Object(obj.clone()),
+                    &[],
+                )?;
+                result.value.guard_by(&ctx.guard);
+                result.value.clone()
+            }
+            None => JsValue::Undefined,
+        },
+        Some((prop, _)) => prop.value.clone(),
+        None => JsValue::Undefined,
+    };
+    Ok(value)
+}
+
+/// SerializeJSONProperty: `None` is "undefined" (the property is left out of an object, becomes
+/// null in an array, and makes JSON.stringify itself return undefined at the top level)
+fn serialize_json_property(
+    interp: &mut Interpreter,
+    ctx: &mut StringifyContext,
+    holder: &JsValue,
+    key: &PropertyKey,
+    value: JsValue,
+) -> Result<Option<serde_json::Value>, JsError> {
+    // Nesting too deep for the native stack is a RangeError, not a stack overflow
+    Interpreter::check_native_stack_since(ctx.stack_base)?;
+    let mut value = value;
+
+    // value.toJSON(key)
+    if let JsValue::Object(obj) = &value
+        && !matches!(obj.borrow().exotic, ExoticObject::Proxy(_))
+    {
+        let to_json_key = PropertyKey::String(interp.intern("toJSON"));
+        let to_json = read_json_property(interp, ctx, obj, &to_json_key)?;
+        if to_json.is_callable() {
+            let key_arg = JsValue::String(JsString::from(key.to_string()));
+            let result = interp.call_function(to_json, value.clone(), &[key_arg])?;
+            result.value.guard_by(&ctx.guard);
+            value = result.value.clone();
+        }
+    }
+
+    // replacer.call(holder, key, value)
+    if let Some(replacer) = ctx.replacer.clone() {
+        let key_arg = JsValue::String(JsString::from(key.to_string()));
+        let result = interp.call_function(replacer, holder.clone(), &[key_arg, value])?;
+        result.value.guard_by(&ctx.guard);
+        value = result.value.clone();
+    }
+
+    let obj = match &value {
+        JsValue::Undefined | JsValue::Symbol(_) => return Ok(None),
+        JsValue::Object(obj) => obj.clone(),
+        primitive => {
+            let mut visited = FxHashSet::default();
+            return js_value_to_json_with_visited(primitive, &mut visited, ctx.stack_base)
+                .map(Some);
+        }
+    };
+    if obj.borrow().is_callable() {
+        return Ok(None);
+    }
+
+    enum Shape {
+        Array(Vec<JsValue>),
+        Plain(Vec<PropertyKey>),
+        Other,
+    }
+    let shape = {
+        let obj_ref = obj.borrow();
+        match &obj_ref.exotic {
+            ExoticObject::Array { elements } => Shape::Array(elements.clone()),
+            // (their data lives in internal properties, none of which is JSON content)
+            ExoticObject::RegExp { .. } | ExoticObject::Map { .. } | ExoticObject::Set { .. } => {
+                Shape::Plain(Vec::new())
+            }
+            ExoticObject::Ordinary
+            | ExoticObject::Promise(_)
+            | ExoticObject::Generator(_)
+            | ExoticObject::BytecodeGenerator(_) => Shape::Plain(match &ctx.allow {
+                Some(allow) => allow.clone(),
+                // Own enumerable string-keyed properties, in property order
+                None => obj_ref
+                    .properties
+                    .iter()
+                    .filter(|(key, prop)| prop.enumerable() && !key.is_symbol())
+                    .map(|(key, _)| key.clone())
+                    .collect(),
+            }),
+            _ => Shape::Other,
+        }
+    };
+
+    if matches!(shape, Shape::Other) {
+        // Dates without toJSON, wrappers, enums, raw JSON, ...: by their internal data
+        return js_value_to_json_with_visited(&value, &mut ctx.visited, ctx.stack_base).map(Some);
+    }
+    let obj_id = obj.id();
+    if !ctx.visited.insert(obj_id) {
+        return Err(JsError::type_error(
+            "Converting circular structure to JSON".to_string(),
+        ));
+    }
+    let result = match shape {
+        Shape::Array(elements) => {
+            let mut items = Vec::with_capacity(elements.len());
+            for (index, element) in elements.into_iter().enumerate() {
+                let key = PropertyKey::Index(index as u32);
+                let item = serialize_json_property(interp, ctx, &value, &key, element)?;
+                items.push(item.unwrap_or(serde_json::Value::Null));
+            }
+            serde_json::Value::Array(items)
+        }
+        Shape::Plain(keys) => {
+            let mut map = serde_json::Map::new();
+            for key in keys {
+                if ctx.allow.is_some() && obj.borrow().get_own_property(&key).is_none() {
+                    continue;
+                }
+                let member = read_json_property(interp, ctx, &obj, &key)?;
+                if let Some(json) = serialize_json_property(interp, ctx, &value, &key, member)? {
+                    map.insert(key.to_string(), json);
+                }
+            }
+            serde_json::Value::Object(map)
+        }
+        Shape::Other => serde_json::Value::Null,
+    };
+    ctx.visited.remove(&obj_id);
+    Ok(Some(result))
+}
+
 pub fn json_stringify(
-    _interp: &mut Interpreter,
+    interp: &mut Interpreter,
     _this: JsValue,
     args: &[JsValue],
 ) -> Result<Guarded, JsError> {
     let value = args.first().cloned().unwrap_or(JsValue::Undefined);
-    // Second argument is replacer (not implemented, ignored)
+    // Second argument is the replacer: a function, or an array of property names
+    let replacer = args.get(1).cloned().unwrap_or(JsValue::Undefined);
     // Third argument is space/indent
     let indent = args.get(2).cloned().unwrap_or(JsValue::Undefined);
 
-    // Track visited objects for circular reference detection
-    let mut visited = FxHashSet::default();
-    let json =
-        js_value_to_json_with_visited(&value, &mut visited, Interpreter::native_stack_address())?;
+    let mut ctx = StringifyContext {
+        replacer: None,
+        allow: None,
+        visited: FxHashSet::default(),
+        stack_base: Interpreter::native_stack_address(),
+        guard: interp.heap.create_guard(),
+    };
+    let mut holder = JsValue::Undefined;
+    if let JsValue::Object(replacer_obj) = &replacer {
+        if replacer_obj.borrow().is_callable() {
+            // The replacer sees the value first as property "" of a wrapper object
+            let wrapper = interp.create_object(&ctx.guard);
+            wrapper
+                .borrow_mut()
+                .set_property(PropertyKey::String(interp.intern("")), value.clone());
+            holder = JsValue::Object(wrapper);
+            ctx.replacer = Some(replacer.clone());
+        } else if let Some(elements) = replacer_obj.borrow().array_elements() {
+            let mut allow: Vec<PropertyKey> = Vec::new();
+            for element in elements {
+                let name = match element {
+                    JsValue::String(_) | JsValue::Number(_) => element.clone(),
+                    JsValue::Object(wrapped) => match &wrapped.borrow().exotic {
+                        ExoticObject::StringObj(s) => JsValue::String(s.clone()),
+                        ExoticObject::Number(n) => JsValue::Number(*n),
+                        _ => continue,
+                    },
+                    _ => continue,
+                };
+                let key = interp.property_key_from_value(&name);
+                if !allow.contains(&key) {
+                    allow.push(key);
+                }
+            }
+            ctx.allow = Some(allow);
+        }
+    }
+
+    let root_key = PropertyKey::String(interp.intern(""));
+    let Some(json) = serialize_json_property(interp, &mut ctx, &holder, &root_key, value)? else {
+        return Ok(Guarded::unguarded(JsValue::Undefined));
+    };
+    // Number and String objects count as their primitive value
+    let indent = match &indent {
+        JsValue::Object(wrapped) => match &wrapped.borrow().exotic {
+            ExoticObject::StringObj(s) => JsValue::String(s.clone()),
+            ExoticObject::Number(n) => JsValue::Number(*n),
+            _ => JsValue::Undefined,
+        },
+        other => other.clone(),
+    };
 
     let output = match indent {
         JsValue::Number(n) if n > 0.0 => {
@@ -149,13 +354,70 @@ pub fn json_parse(
 
     // Use a single guard for all objects created during parsing
     let guard = interp.heap.create_guard();
-    let value = json_to_js_value_with_guard(interp, &json, &guard)?;
+    let mut value = json_to_js_value_with_guard(interp, &json, &guard)?;
+
+    // JSON.parse(text, reviver): every value passes through the reviver, innermost first
+    let reviver = args.get(1).cloned().unwrap_or(JsValue::Undefined);
+    if reviver.is_callable() {
+        let root = interp.create_object(&guard);
+        let root_key = PropertyKey::String(interp.intern(""));
+        root.borrow_mut().set_property(root_key.clone(), value);
+        let stack_base = Interpreter::native_stack_address();
+        value = internalize_json_property(interp, &guard, &reviver, &root, &root_key, stack_base)?;
+    }
 
     // Return the result with the guard if it's an object
     if matches!(value, JsValue::Object(_)) {
         return Ok(Guarded::with_guard(value, guard));
     }
     Ok(Guarded::unguarded(value))
+}
+
+/// InternalizeJSONProperty: revive the members of `holder[key]`, then the value itself
+fn internalize_json_property(
+    interp: &mut Interpreter,
+    guard: &Guard<JsObject>,
+    reviver: &JsValue,
+    holder: &crate::gc::Gc<JsObject>,
+    key: &PropertyKey,
+    stack_base: usize,
+) -> Result<JsValue, JsError> {
+    Interpreter::check_native_stack_since(stack_base)?;
+    let value = holder
+        .borrow()
+        .get_property(key)
+        .unwrap_or(JsValue::Undefined);
+    if let JsValue::Object(obj) = &value {
+        let keys: Vec<PropertyKey> = {
+            let obj_ref = obj.borrow();
+            match obj_ref.array_elements() {
+                Some(elements) => (0..elements.len() as u32).map(PropertyKey::Index).collect(),
+                None => obj_ref
+                    .properties
+                    .iter()
+                    .filter(|(key, prop)| prop.enumerable() && !key.is_symbol())
+                    .map(|(key, _)| key.clone())
+                    .collect(),
+            }
+        };
+        for member in keys {
+            let revived =
+                internalize_json_property(interp, guard, reviver, obj, &member, stack_base)?;
+            if matches!(revived, JsValue::Undefined) && obj.borrow().array_elements().is_none() {
+                obj.borrow_mut().properties.remove(&member);
+            } else {
+                obj.borrow_mut().set_property(member, revived);
+            }
+        }
+    }
+    let key_arg = JsValue::String(JsString::from(key.to_string()));
+    let result = interp.call_function(
+        reviver.clone(),
+        JsValue::Object(holder.clone()),
+        &[key_arg, value],
+    )?;
+    result.value.guard_by(guard);
+    Ok(result.value.clone())
 }
 
 /// Convert a JsValue to JSON, with public API for external callers (without circular detection)
